@@ -231,6 +231,19 @@ namespace bluetoe
                     ptr_   = 0;
                 }
 
+                /**
+                 * frees the buffer, if it was handed over to be flashed. Returns true, if the buffer was freed
+                 */
+                bool free_flashed()
+                {
+                    if ( state_ != flashing )
+                        return false;
+
+                    free();
+
+                    return true;
+                }
+
                 bool empty() const
                 {
                     return state_ == idle;
@@ -554,7 +567,9 @@ namespace bluetoe
 
                 std::uint8_t bootloader_progress_data( std::size_t read_size, std::uint8_t* out_buffer, std::size_t& out_size )
                 {
-                    buffers_[used_buffer_].free();
+                    // the end of a flash operation that was started before the flash mode was left, must not free a buffer
+                    // that is in use again
+                    const bool freed = buffers_[used_buffer_].free_flashed();
                     out_size = 7;
                     assert( read_size >= out_size );
 
@@ -565,7 +580,8 @@ namespace bluetoe
                     *out_buffer = read_size + 3;
                     ++out_buffer;
 
-                    used_buffer_ = ( used_buffer_ + 1 ) % number_of_concurrent_flashs;
+                    if ( freed )
+                        used_buffer_ = ( used_buffer_ + 1 ) % number_of_concurrent_flashs;
 
                     return bluetoe::error_codes::success;
                 }
